@@ -1,4 +1,740 @@
-import PintModel.Model.Enable
+import PintModel.Model.Git
+/-!
+# C03 — `pint ci` classifies every rule's change state correctly for any branch history
+
+Two theorems about the model of `git.Changes` + `matchEntries` (`Model/Git.lean`), for every history and every
+rule list, with no bound on the number of commits, files or rules:
+
+* `fold_tracks_lineage` — for every well-formed sequence of name-status records, the change list pint builds holds,
+  for each file of the HEAD tree that the branch touched, exactly one non-delete change, and that change carries the
+  base path the file descends from through renames, deletions and re-creations (the reference tree semantics
+  `applyRec`) together with every commit of its chain; files the branch did not touch have no change at all.
+  `old_fold_loses_lineage` shows the pre-`fix:` fold violating exactly this.
+* `match_states` — when rule names are unique per type in a file, the states `matchEntries` + the state switch give
+  to the HEAD rules are the reference classification `specState` (compare with the base rule of the same type and
+  name: absent → added, path differs → renamed, same content → unmodified, else modified).
+
+What is *not* proved but run (correspondence `gitfold`, `c03wf`, `c03states` against real git and `pint ci`): that
+the bodies pint reads (`Commits[0]^`, last commit) are the base and HEAD contents, the final merge into the glob
+entries, git's own rename detection.  Hence `C03_partial`.
+-/
 namespace Pint.Props.C03
-theorem placeholder : True := trivial
+open Pint.Git
+
+/-! ## part A: matching of rule entries -/
+
+theorem identical_sameKey {a b : Ent} (h : identical a b = true) : sameKey a b = true := by
+  simp only [identical, sameKey, Bool.and_eq_true] at *
+  exact ⟨h.1.1, h.1.2⟩
+
+theorem sameKey_trans_left {a x y : Ent} (h1 : sameKey a x = true) (h2 : sameKey a y = true) : sameKey x y = true := by
+  simp only [sameKey, Bool.and_eq_true, beq_iff_eq] at *
+  exact ⟨h1.1 ▸ h2.1, h1.2 ▸ h2.2⟩
+
+/-- rule names are unique per type in a list -/
+def UniqueKeys (l : List Ent) : Prop := l.Pairwise fun x y => sameKey x y = false
+
+theorem unique_tail_no_key {a x : Ent} {xs : List Ent} (hU : UniqueKeys (x :: xs)) (hax : sameKey a x = true) :
+    ∀ y ∈ xs, sameKey a y = false := by
+  intro y hy
+  have hxy : sameKey x y = false := (List.pairwise_cons.mp hU).1 y hy
+  cases h : sameKey a y with
+  | false => rfl
+  | true => rw [sameKey_trans_left hax h] at hxy; exact absurd hxy (by simp)
+
+theorem filter_not_key_eq_self {a : Ent} {xs : List Ent} (h : ∀ y ∈ xs, sameKey a y = false) :
+    xs.filter (fun b => !sameKey a b) = xs := by
+  apply List.filter_eq_self.mpr
+  intro y hy; simp [h y hy]
+
+theorem filter_key_eq_nil {a : Ent} {xs : List Ent} (h : ∀ y ∈ xs, sameKey a y = false) :
+    xs.filter (sameKey a) = [] := by
+  apply List.filter_eq_nil_iff.mpr
+  intro y hy; simp [h y hy]
+
+theorem find_key_eq_none {a : Ent} {xs : List Ent} (h : ∀ y ∈ xs, sameKey a y = false) :
+    xs.find? (sameKey a) = none := by
+  apply List.find?_eq_none.mpr
+  intro y hy; simp [h y hy]
+
+/-- what the first loop of `matchEntries` does on a list with unique keys -/
+theorem takeIdentical_spec (a : Ent) (hn : a.name ≠ "") :
+    ∀ bs : List Ent, UniqueKeys bs →
+      match bs.find? (sameKey a) with
+      | some b => (identical a b = true → takeIdentical a bs = (some b, bs.filter fun x => !sameKey a x)) ∧
+                  (identical a b = false → takeIdentical a bs = (none, bs))
+      | none => takeIdentical a bs = (none, bs) := by
+  intro bs
+  induction bs with
+  | nil => intro _; simp [takeIdentical]
+  | cons x xs ih =>
+    intro hU
+    have hUxs : UniqueKeys xs := (List.pairwise_cons.mp hU).2
+    have hne : (a.name != "") = true := by simp [hn]
+    cases hax : sameKey a x with
+    | true =>
+      have hno := unique_tail_no_key hU hax
+      simp only [List.find?_cons, hax]
+      constructor
+      · intro hid
+        simp only [takeIdentical, hne, hid, Bool.and_self, if_true, List.filter_cons, hax, Bool.not_true]
+        simp [filter_not_key_eq_self hno]
+      · intro hid
+        have ihx := ih hUxs
+        rw [find_key_eq_none hno] at ihx
+        simp [takeIdentical, hid, ihx]
+    | false =>
+      have hid : identical a x = false := by
+        cases h : identical a x with
+        | false => rfl
+        | true => rw [identical_sameKey h] at hax; exact absurd hax (by simp)
+      have ihx := ih hUxs
+      simp only [List.find?_cons, hax]
+      cases hf : xs.find? (sameKey a) with
+      | none =>
+        rw [hf] at ihx
+        simp [takeIdentical, hid, ihx]
+      | some b =>
+        rw [hf] at ihx
+        simp only at ihx ⊢
+        constructor
+        · intro hb
+          simp [takeIdentical, hid, ihx.1 hb, List.filter_cons, hax]
+        · intro hb
+          simp [takeIdentical, hid, ihx.2 hb]
+
+theorem filter_key_of_find {a b : Ent} :
+    ∀ bs : List Ent, UniqueKeys bs → bs.find? (sameKey a) = some b → bs.filter (sameKey a) = [b] := by
+  intro bs
+  induction bs with
+  | nil => intro _ h; simp at h
+  | cons x xs ih =>
+    intro hU hf
+    cases hax : sameKey a x with
+    | true =>
+      simp only [List.find?_cons, hax] at hf
+      have hxb : x = b := by simpa using hf
+      subst hxb
+      simp [List.filter_cons, hax, filter_key_eq_nil (unique_tail_no_key hU hax)]
+    | false =>
+      simp only [List.find?_cons, hax] at hf
+      simp [List.filter_cons, hax, ih (List.pairwise_cons.mp hU).2 hf]
+
+theorem find_none_filter {a : Ent} (bs : List Ent) (h : bs.find? (sameKey a) = none) : bs.filter (sameKey a) = [] := by
+  apply List.filter_eq_nil_iff.mpr
+  intro y hy
+  have := List.find?_eq_none.mp h y hy
+  simpa using this
+
+/-- one HEAD rule: the state is the reference state, and every base rule of its key is consumed -/
+theorem matchOne_spec (a : Ent) (hn : a.name ≠ "") (bs : List Ent) (hU : UniqueKeys bs) :
+    stateOf (matchOne bs a).1 = specState bs a ∧ (matchOne bs a).1.after = some a ∧
+    (matchOne bs a).2 = bs.filter (fun x => !sameKey a x) := by
+  have ht := takeIdentical_spec a hn bs hU
+  cases hf : bs.find? (sameKey a) with
+  | none =>
+    rw [hf] at ht
+    simp only at ht
+    simp [matchOne, ht, byName, find_none_filter bs hf, stateOf, specState, hf]
+  | some b =>
+    rw [hf] at ht
+    simp only at ht
+    have hkb : sameKey a b = true := by simpa using List.find?_some hf
+    cases hid : identical a b with
+    | true =>
+      have hc : (b.content == a.content) = true := by
+        simp only [identical, Bool.and_eq_true, beq_iff_eq] at hid
+        simp [hid.2]
+      simp only [matchOne, ht.1 hid, stateOf, specState, hf, hc, Bool.true_and]
+      refine ⟨?_, trivial, trivial⟩
+      cases hp : (a.path != b.path) <;> cases hd : (b.disabled == a.disabled) <;> simp
+    | false =>
+      have hc : (b.content == a.content) = false := by
+        simp only [identical, sameKey, Bool.and_eq_true, beq_iff_eq] at hid hkb
+        cases h : (b.content == a.content) with
+        | false => rfl
+        | true =>
+          have : b.content = a.content := by simpa using h
+          simp [hkb.1, hkb.2, this] at hid
+      simp only [matchOne, ht.2 hid, byName, filter_key_of_find bs hU hf, stateOf, specState, hf, hc, Bool.false_and]
+      refine ⟨?_, trivial, trivial⟩
+      cases hp : (a.path != b.path) <;> simp
+
+theorem unique_filter {l : List Ent} (p : Ent → Bool) (h : UniqueKeys l) : UniqueKeys (l.filter p) :=
+  List.Pairwise.filter p h
+
+theorem find_filter_other {a a' : Ent} (h : sameKey a a' = false) (bs : List Ent) :
+    (bs.filter fun x => !sameKey a x).find? (sameKey a') = bs.find? (sameKey a') := by
+  induction bs with
+  | nil => rfl
+  | cons x xs ih =>
+    cases hax : sameKey a x with
+    | false => simp [List.filter_cons, hax, List.find?_cons, ih]
+    | true =>
+      have : sameKey a' x = false := by
+        cases h' : sameKey a' x with
+        | false => rfl
+        | true =>
+          have h1 : sameKey x a' = true := by
+            simp only [sameKey, Bool.and_eq_true, beq_iff_eq] at h' ⊢; exact ⟨h'.1.symm, h'.2.symm⟩
+          have h2 : sameKey x a = true := by
+            simp only [sameKey, Bool.and_eq_true, beq_iff_eq] at hax ⊢; exact ⟨hax.1.symm, hax.2.symm⟩
+          rw [sameKey_trans_left h2 h1] at h; exact absurd h (by simp)
+      simp [List.filter_cons, hax, List.find?_cons, this, ih]
+
+theorem specState_filter_other {a a' : Ent} (h : sameKey a a' = false) (bs : List Ent) :
+    specState (bs.filter fun x => !sameKey a x) a' = specState bs a' := by
+  simp only [specState, find_filter_other h]
+
+/-- **C03, matching**: with unique rule keys on both sides and non-empty names, the HEAD rules get, in order, exactly
+the reference states; whatever the number of rules. -/
+theorem match_states :
+    ∀ (after before : List Ent), UniqueKeys before → UniqueKeys after → (∀ a ∈ after, a.name ≠ "") →
+      (matchAfter before after).1.map stateOf = after.map (specState before) ∧
+      (matchAfter before after).1.map (·.after) = after.map some := by
+  intro after
+  induction after with
+  | nil => intro before _ _ _; simp [matchAfter]
+  | cons a as ih =>
+    intro before hB hA hN
+    have h1 := matchOne_spec a (hN a (by simp)) before hB
+    have hAas : UniqueKeys as := (List.pairwise_cons.mp hA).2
+    have hrest := ih (matchOne before a).2 (by rw [h1.2.2]; exact unique_filter _ hB) hAas (fun x hx => hN x (by simp [hx]))
+    simp only [matchAfter, List.map_cons, h1.1, h1.2.1, hrest.2, List.cons.injEq, true_and, and_true]
+    rw [hrest.1, h1.2.2]
+    apply List.map_congr_left
+    intro a' ha'
+    exact specState_filter_other ((List.pairwise_cons.mp hA).1 a' ha') before
+
+/-- the HEAD part of `matchEntries` is `matchAfter`; the leftovers are the removed rules -/
+theorem matchEntries_head (before after : List Ent) :
+    (matchEntries before after).filterMap (fun m => m.after.map fun a => (a, stateOf m)) =
+    (matchAfter before after).1.filterMap (fun m => m.after.map fun a => (a, stateOf m)) := by
+  simp [matchEntries, List.filterMap_append, List.filterMap_map]
+
+/-! non-vacuity and the documented precedence: renamed wins over modified -/
+example :
+    let b : Ent := { alert := true, name := "Down", content := 1, disabled := 0, path := "a.yml" }
+    let a : Ent := { alert := true, name := "Down", content := 2, disabled := 0, path := "b.yml" }
+    (matchEntries [b] [a]).map stateOf = [.moved] ∧ specState [b] a = .moved := by decide
+
+example :
+    let b1 : Ent := { alert := true, name := "Down", content := 1, disabled := 0, path := "a.yml" }
+    let b2 : Ent := { alert := false, name := "x:y", content := 5, disabled := 0, path := "a.yml" }
+    let a1 : Ent := { alert := true, name := "Down", content := 1, disabled := 0, path := "a.yml" }
+    let a2 : Ent := { alert := false, name := "x:y", content := 6, disabled := 0, path := "a.yml" }
+    let a3 : Ent := { alert := false, name := "new", content := 6, disabled := 0, path := "a.yml" }
+    (matchEntries [b1, b2] [a2, a3, a1]).map stateOf = [.modified, .added, .noop] := by decide
+
+/-- without unique names the matching is positional: two base rules of one name and no identical one leave the
+HEAD rule `added` (and both base rules `removed`) -/
+example :
+    let b1 : Ent := { alert := true, name := "Down", content := 1, disabled := 0, path := "a.yml" }
+    let b2 : Ent := { alert := true, name := "Down", content := 2, disabled := 0, path := "a.yml" }
+    let a : Ent := { alert := true, name := "Down", content := 3, disabled := 0, path := "a.yml" }
+    (matchEntries [b1, b2] [a]).map stateOf = [.added, .removed, .removed] := by decide
+
+/-! ## part B: the fold over name-status records tracks the lineage of every file -/
+
+theorem filter_eraseP_self {α : Type} (p : α → Bool) : ∀ l : List α, (l.eraseP p).filter p = (l.filter p).tail
+  | [] => rfl
+  | x :: xs => by
+    cases h : p x
+    · simp [List.eraseP_cons, h, List.filter_cons, filter_eraseP_self p xs]
+    · simp [List.eraseP_cons, h, List.filter_cons]
+
+theorem filter_eraseP_disjoint {α : Type} (p q : α → Bool) (h : ∀ x, p x = true → q x = false) :
+    ∀ l : List α, (l.eraseP p).filter q = l.filter q
+  | [] => rfl
+  | x :: xs => by
+    cases hp : p x
+    · simp [List.eraseP_cons, hp, List.filter_cons, filter_eraseP_disjoint p q h xs]
+    · simp [List.eraseP_cons, hp, List.filter_cons, h x hp]
+
+theorem find_eq_head_filter {α : Type} (p : α → Bool) (l : List α) : l.find? p = (l.filter p).head? :=
+  List.head?_filter.symm
+
+def liveAt (t : Tree) (p : String) : List TFile := t.live.filter fun f => atPath p f && touched f
+def deadAt (t : Tree) (p : String) : List TFile := t.dead.filter (atPath p)
+
+/-- per path, the changes pint holds are: the live file's change (if the branch touched it), then the deleted files
+that were at this path, most recent first -/
+def Inv (cs : List Chg) (t : Tree) : Prop :=
+  ∀ p, cs.filter (hasAfter p) = (liveAt t p ++ deadAt t p).map toChg
+
+structure TInv (t : Tree) : Prop where
+  uniq : t.live.Pairwise fun f g => f.path ≠ g.path
+  fresh : ∀ f ∈ t.live, touched f = false → f.origin = f.path ∧ deadAt t f.path = []
+  deadD : ∀ f ∈ t.dead, f.st = .D
+  liveND : ∀ f ∈ t.live, f.st ≠ .D
+
+theorem untouched_commits {f : TFile} (h : touched f = false) : f.commits = [] := by
+  simpa [touched] using h
+
+theorem hasAfter_toChg (p : String) (f : TFile) : hasAfter p (toChg f) = atPath p f := rfl
+
+theorem atPath_eq {p : String} {f : TFile} (h : atPath p f = true) : f.path = p := by simpa [atPath] using h
+
+theorem atPath_ne {p q : String} {f : TFile} (h : atPath p f = true) (hne : q ≠ p) : atPath q f = false := by
+  have := atPath_eq h
+  simp [atPath, this, Ne.symm hne]
+
+theorem any_atPath_false {l : List TFile} {p : String} (h : l.any (atPath p) = false) : ∀ f ∈ l, atPath p f = false := by
+  intro f hf
+  have := List.any_eq_false.mp h f hf
+  simpa using this
+
+theorem exists_find_of_any {l : List TFile} {p : String} (h : l.any (atPath p) = true) : ∃ f, l.find? (atPath p) = some f := by
+  cases hf : l.find? (atPath p) with
+  | some f => exact ⟨f, rfl⟩
+  | none =>
+    have := List.find?_eq_none.mp hf
+    obtain ⟨x, hx, hpx⟩ := List.any_eq_true.mp h
+    exact absurd hpx (this x hx)
+
+/-- after taking the file at `s` out of a tree with unique paths, nothing is left at `s` -/
+theorem erase_none_left {s : String} {f : TFile} :
+    ∀ {l : List TFile}, (l.Pairwise fun f g => f.path ≠ g.path) → l.find? (atPath s) = some f →
+      ∀ g ∈ l.eraseP (atPath s), atPath s g = false := by
+  intro l
+  induction l with
+  | nil => intro _ h; simp at h
+  | cons x xs ih =>
+    intro hU hf g hg
+    cases hx : atPath s x with
+    | true =>
+      simp only [List.eraseP_cons, hx, if_true] at hg
+      have hne : x.path ≠ g.path := (List.pairwise_cons.mp hU).1 g hg
+      have hxs := atPath_eq hx
+      cases hgs : atPath s g with
+      | false => rfl
+      | true => exact absurd ((atPath_eq hgs).trans hxs.symm).symm hne
+    | false =>
+      simp only [List.eraseP_cons, hx] at hg
+      simp only [List.find?_cons, hx] at hf
+      rcases List.mem_cons.mp hg with h | h
+      · rw [h]; exact hx
+      · exact ih (List.pairwise_cons.mp hU).2 hf g h
+
+theorem liveAt_erase_same {t : Tree} {s : String} {f : TFile} (hU : t.live.Pairwise fun f g => f.path ≠ g.path)
+    (hf : t.live.find? (atPath s) = some f) :
+    (t.live.eraseP (atPath s)).filter (fun g => atPath s g && touched g) = [] := by
+  apply List.filter_eq_nil_iff.mpr
+  intro g hg
+  simp [erase_none_left hU hf g hg]
+
+theorem liveAt_erase_other {l : List TFile} {s q : String} (hne : q ≠ s) :
+    (l.eraseP (atPath s)).filter (fun g => atPath q g && touched g) = l.filter (fun g => atPath q g && touched g) :=
+  filter_eraseP_disjoint _ _ (fun x hx => by simp [atPath_ne hx hne]) l
+
+theorem chg_erase_other (cs : List Chg) {s q : String} (hne : q ≠ s) :
+    (cs.eraseP (hasAfter s)).filter (hasAfter q) = cs.filter (hasAfter q) :=
+  filter_eraseP_disjoint _ _ (fun x hx => by
+    have : x.after = s := by simpa [hasAfter] using hx
+    simp [hasAfter, this, Ne.symm hne]) cs
+
+theorem dead_erase_other (l : List TFile) {s q : String} (hne : q ≠ s) :
+    (l.eraseP (atPath s)).filter (atPath q) = l.filter (atPath q) :=
+  filter_eraseP_disjoint _ _ (fun x hx => atPath_ne hx hne) l
+
+/-- the live file at `s` as the fold sees it -/
+theorem liveAt_of_find_list {s : String} {f : TFile} : ∀ {l : List TFile}, (l.Pairwise fun f g => f.path ≠ g.path) →
+    l.find? (atPath s) = some f → l.filter (fun g => atPath s g && touched g) = if touched f then [f] else [] := by
+  intro l
+  induction l with
+  | nil => intro _ hf; simp at hf
+  | cons x xs ih =>
+    intro hU hf
+    cases hx : atPath s x with
+    | true =>
+      simp only [List.find?_cons, hx] at hf
+      have hxf : x = f := by simpa using hf
+      subst hxf
+      have hrest : xs.filter (fun g => atPath s g && touched g) = [] := by
+        apply List.filter_eq_nil_iff.mpr
+        intro g hg
+        have hne : x.path ≠ g.path := (List.pairwise_cons.mp hU).1 g hg
+        cases hgs : atPath s g with
+        | false => simp
+        | true => exact absurd ((atPath_eq hgs).trans (atPath_eq hx).symm).symm hne
+      cases ht : touched x <;> simp [List.filter_cons, hx, ht, hrest]
+    | false =>
+      simp only [List.find?_cons, hx] at hf
+      simp [List.filter_cons, hx, ih (List.pairwise_cons.mp hU).2 hf]
+
+theorem liveAt_of_find {t : Tree} {s : String} {f : TFile} (hU : t.live.Pairwise fun f g => f.path ≠ g.path)
+    (hf : t.live.find? (atPath s) = some f) : liveAt t s = if touched f then [f] else [] :=
+  liveAt_of_find_list hU hf
+
+theorem liveAt_of_not_live {t : Tree} {p : String} (h : t.live.any (atPath p) = false) : liveAt t p = [] := by
+  apply List.filter_eq_nil_iff.mpr
+  intro g hg
+  simp [any_atPath_false h g hg]
+
+/-- what `getChangeByPath(src)` finds and what is left after `changesWithout(prev)`, for a live source file -/
+theorem step_on_live {cs : List Chg} {t : Tree} (hI : Inv cs t) (hT : TInv t) {r : Rec} {f : TFile}
+    (hf : t.live.find? (atPath r.src) = some f) (hst : r.st ≠ .A ∧ r.st ≠ .C) :
+    ∃ rest, step cs r = toChg (touch r.commit r.st r.dst f) :: rest ∧
+      rest.filter (hasAfter r.src) = (deadAt t r.src).map toChg ∧
+      ∀ q, q ≠ r.src → rest.filter (hasAfter q) = cs.filter (hasAfter q) := by
+  have hfs : f.path = r.src := atPath_eq (by simpa using List.find?_some hf)
+  have hfm : f ∈ t.live := List.mem_of_find?_eq_some hf
+  have hs := hI r.src
+  rw [liveAt_of_find hT.uniq hf] at hs
+  cases ht : touched f with
+  | true =>
+    simp only [ht, if_true, List.cons_append, List.nil_append, List.map_cons] at hs
+    have hfind : cs.find? (hasAfter r.src) = some (toChg f) := by rw [find_eq_head_filter, hs]; rfl
+    refine ⟨cs.eraseP (hasAfter r.src), ?_, ?_, fun q hq => chg_erase_other cs hq⟩
+    · simp [step, hfind, toChg, touch]
+    · rw [filter_eraseP_self, hs]; rfl
+  | false =>
+    have hd := (hT.fresh f hfm ht)
+    rw [hfs] at hd
+    simp only [ht, Bool.false_eq_true, if_false, List.nil_append, hd.2, List.map_nil] at hs
+    have hfind : cs.find? (hasAfter r.src) = none := by rw [find_eq_head_filter, hs]; rfl
+    refine ⟨cs, ?_, ?_, fun q _ => rfl⟩
+    · have hfb : freshBefore r = r.src := by
+        unfold freshBefore
+        cases hr : r.st <;> simp_all
+      simp [step, hfind, toChg, touch, untouched_commits ht, hd.1, hfb]
+    · rw [hs, hd.2]; rfl
+
+theorem touched_touch (c : Nat) (st : St) (d : String) (f : TFile) : touched (touch c st d f) = true := by
+  simp [touched, touch]
+
+theorem atPath_touch (q : String) (c : Nat) (st : St) (d : String) (f : TFile) : atPath q (touch c st d f) = (d == q) := rfl
+
+theorem mem_eraseP_mem {α : Type} {p : α → Bool} {l : List α} {x : α} (h : x ∈ l.eraseP p) : x ∈ l :=
+  (List.eraseP_sublist).subset h
+
+/-- `M`, `T` and `R` records: the live file moves (or stays) and stays live -/
+theorem preserve_move {cs : List Chg} {t : Tree} (hI : Inv cs t) (hT : TInv t) {r : Rec} {f : TFile}
+    (hf : t.live.find? (atPath r.src) = some f) (hst : r.st ≠ .A ∧ r.st ≠ .C ∧ r.st ≠ .D)
+    (hdst : r.dst = r.src ∨ t.live.any (atPath r.dst) = false) :
+    let t' : Tree := { live := touch r.commit r.st r.dst f :: t.live.eraseP (atPath r.src), dead := t.dead }
+    Inv (step cs r) t' ∧ TInv t' := by
+  intro t'
+  obtain ⟨rest, hstep, hsrc, hoth⟩ := step_on_live hI hT hf ⟨hst.1, hst.2.1⟩
+  constructor
+  · intro q
+    rw [hstep]
+    simp only [List.filter_cons, hasAfter_toChg, atPath_touch, liveAt, deadAt, t', touched_touch, Bool.and_true]
+    by_cases hq : q = r.src
+    · subst hq
+      rw [hsrc, liveAt_erase_same hT.uniq hf]
+      by_cases hd : (r.dst == r.src) = true <;> simp [hd, deadAt]
+    · rw [hoth q hq, hI q, liveAt_erase_other hq]
+      by_cases hd : (r.dst == q) = true <;> simp [hd, liveAt, deadAt]
+  · constructor
+    · simp only [t']
+      apply List.pairwise_cons.mpr
+      constructor
+      · intro g hg
+        have hgl := erase_none_left hT.uniq hf g hg
+        simp only [touch]
+        intro hpath
+        rcases hdst with h | h
+        · rw [h] at hpath
+          simp [atPath, ← hpath] at hgl
+        · have := any_atPath_false h g (mem_eraseP_mem hg)
+          simp [atPath, ← hpath] at this
+      · exact List.Pairwise.sublist List.eraseP_sublist hT.uniq
+    · intro g hg hgt
+      simp only [t'] at hg
+      rcases List.mem_cons.mp hg with h | h
+      · rw [h, touched_touch] at hgt; exact absurd hgt (by simp)
+      · exact hT.fresh g (mem_eraseP_mem h) hgt
+    · exact hT.deadD
+    · intro g hg
+      simp only [t'] at hg
+      rcases List.mem_cons.mp hg with h | h
+      · rw [h]; exact hst.2.2
+      · exact hT.liveND g (mem_eraseP_mem h)
+
+/-- `D` records: the live file becomes the newest deleted file of its path -/
+theorem preserve_delete {cs : List Chg} {t : Tree} (hI : Inv cs t) (hT : TInv t) {r : Rec} {f : TFile}
+    (hf : t.live.find? (atPath r.src) = some f) (hst : r.st = .D) (hdst : r.dst = r.src) :
+    let t' : Tree := { live := t.live.eraseP (atPath r.src), dead := touch r.commit .D r.dst f :: t.dead }
+    Inv (step cs r) t' ∧ TInv t' := by
+  intro t'
+  obtain ⟨rest, hstep, hsrc, hoth⟩ := step_on_live hI hT hf (by simp [hst])
+  rw [hst] at hstep
+  constructor
+  · intro q
+    rw [hstep]
+    simp only [List.filter_cons, hasAfter_toChg, atPath_touch, liveAt, deadAt, t', hdst]
+    by_cases hq : q = r.src
+    · subst hq
+      rw [hsrc, liveAt_erase_same hT.uniq hf]
+      simp [deadAt]
+    · rw [hoth q hq, hI q, liveAt_erase_other hq]
+      have : (r.src == q) = false := by simp [Ne.symm hq]
+      simp [liveAt, deadAt, this]
+  · constructor
+    · exact List.Pairwise.sublist List.eraseP_sublist hT.uniq
+    · intro g hg hgt
+      simp only [t'] at hg
+      have hgl := erase_none_left hT.uniq hf g hg
+      have h0 := hT.fresh g (mem_eraseP_mem hg) hgt
+      refine ⟨h0.1, ?_⟩
+      have hne : (r.src == g.path) = false := by
+        cases h : (r.src == g.path) with
+        | false => rfl
+        | true =>
+          have : r.src = g.path := by simpa using h
+          simp [atPath, this] at hgl
+      simp only [deadAt, t', List.filter_cons, atPath_touch, hdst, hne]
+      exact h0.2
+    · intro g hg
+      simp only [t'] at hg
+      rcases List.mem_cons.mp hg with h | h
+      · rw [h]; rfl
+      · exact hT.deadD g h
+    · intro g hg
+      exact hT.liveND g (mem_eraseP_mem hg)
+
+/-- `A` records: a file created at a path deleted earlier on the branch continues that file's chain -/
+theorem preserve_add {cs : List Chg} {t : Tree} (hI : Inv cs t) (hT : TInv t) {r : Rec}
+    (hst : r.st = .A) (hfree : t.live.any (atPath r.dst) = false) (hsrc : r.src = r.dst) (hex : r.exBefore = false) :
+    Inv (step cs r) (applyRec t r) ∧ TInv (applyRec t r) := by
+  have hs := hI r.dst
+  rw [liveAt_of_not_live hfree, List.nil_append] at hs
+  cases hd : t.dead.find? (atPath r.dst) with
+  | some d =>
+    have hdp : d.path = r.dst := atPath_eq (by simpa using List.find?_some hd)
+    have hhead : (deadAt t r.dst).head? = some d := by rw [deadAt, ← find_eq_head_filter]; exact hd
+    have hfind : cs.find? (hasAfter r.src) = some (toChg d) := by
+      rw [hsrc, find_eq_head_filter, hs, List.head?_map, hhead]; rfl
+    have hstep : step cs r = toChg (touch r.commit .A r.dst d) :: cs.eraseP (hasAfter r.dst) := by
+      rw [hsrc] at hfind
+      simp only [step, hsrc, hfind, toChg, touch, hst]
+    have happ : applyRec t r = { live := touch r.commit .A r.dst d :: t.live, dead := t.dead.eraseP (atPath r.dst) } := by
+      simp [applyRec, hst, hd]
+    rw [happ, hstep]
+    constructor
+    · intro q
+      simp only [List.filter_cons, hasAfter_toChg, atPath_touch, liveAt, deadAt, touched_touch, Bool.and_true]
+      by_cases hq : q = r.dst
+      · subst hq
+        rw [filter_eraseP_self, hs, filter_eraseP_self]
+        have := liveAt_of_not_live hfree
+        simp only [liveAt] at this
+        simp [this, deadAt, List.map_tail]
+      · rw [chg_erase_other cs hq, hI q, dead_erase_other _ hq]
+        have : (r.dst == q) = false := by simp [Ne.symm hq]
+        simp [liveAt, deadAt, this]
+    · constructor
+      · apply List.pairwise_cons.mpr
+        refine ⟨?_, hT.uniq⟩
+        intro g hg hpath
+        have := any_atPath_false hfree g hg
+        simp [atPath, touch] at hpath this
+        exact this hpath.symm
+      · intro g hg hgt
+        rcases List.mem_cons.mp hg with h | h
+        · rw [h, touched_touch] at hgt; exact absurd hgt (by simp)
+        · have h0 := hT.fresh g h hgt
+          refine ⟨h0.1, ?_⟩
+          have hne : g.path ≠ r.dst := by
+            intro he
+            have := any_atPath_false hfree g h
+            simp [atPath, he] at this
+          simp only [deadAt]
+          rw [dead_erase_other _ hne]
+          exact h0.2
+      · intro g hg
+        exact hT.deadD g (mem_eraseP_mem hg)
+      · intro g hg
+        rcases List.mem_cons.mp hg with h | h
+        · rw [h]; simp [touch]
+        · exact hT.liveND g h
+  | none =>
+    have hnil : deadAt t r.dst = [] := by
+      apply List.filter_eq_nil_iff.mpr
+      intro g hg
+      have := List.find?_eq_none.mp hd g hg
+      simpa using this
+    rw [hnil] at hs
+    have hfind : cs.find? (hasAfter r.src) = none := by rw [hsrc, find_eq_head_filter, hs]; rfl
+    have hstep : step cs r = { st := .A, before := "", after := r.dst, commits := [r.commit] } :: cs := by
+      simp [step, hfind, freshBefore, hst, hex]
+    have happ : applyRec t r = { live := { path := r.dst, origin := "", commits := [r.commit], st := .A } :: t.live, dead := t.dead } := by
+      simp [applyRec, hst, hd]
+    rw [happ, hstep]
+    constructor
+    · intro q
+      simp only [List.filter_cons, liveAt, deadAt, hasAfter, atPath, touched]
+      rw [hI q]
+      by_cases hq : (r.dst == q) = true <;> simp [hq, liveAt, deadAt, atPath, touched, toChg]
+    · constructor
+      · apply List.pairwise_cons.mpr
+        refine ⟨?_, hT.uniq⟩
+        intro g hg hpath
+        have := any_atPath_false hfree g hg
+        simp [atPath] at hpath this
+        exact this hpath.symm
+      · intro g hg hgt
+        rcases List.mem_cons.mp hg with h | h
+        · rw [h] at hgt; simp [touched] at hgt
+        · exact hT.fresh g h hgt
+      · exact hT.deadD
+      · intro g hg
+        rcases List.mem_cons.mp hg with h | h
+        · rw [h]; simp
+        · exact hT.liveND g h
+
+/-- one record: the change list keeps describing the tree -/
+theorem step_preserves {cs : List Chg} {t : Tree} (hI : Inv cs t) (hT : TInv t) {r : Rec} (ha : applicable t r = true) :
+    Inv (step cs r) (applyRec t r) ∧ TInv (applyRec t r) := by
+  cases hst : r.st with
+  | A =>
+    simp only [applicable, hst, Bool.and_eq_true, Bool.not_eq_true', beq_iff_eq] at ha
+    exact preserve_add hI hT hst ha.1.1 ha.1.2 ha.2
+  | C => simp [applicable, hst] at ha
+  | D =>
+    simp only [applicable, hst, Bool.and_eq_true, beq_iff_eq] at ha
+    obtain ⟨f, hf⟩ := exists_find_of_any ha.1
+    have := preserve_delete hI hT hf hst ha.2.symm
+    simpa [applyRec, hst, hf] using this
+  | M =>
+    simp only [applicable, hst, Bool.and_eq_true, beq_iff_eq] at ha
+    obtain ⟨f, hf⟩ := exists_find_of_any ha.1
+    have := preserve_move hI hT hf (by simp [hst]) (Or.inl ha.2.symm)
+    simpa [applyRec, hst, hf] using this
+  | T =>
+    simp only [applicable, hst, Bool.and_eq_true, beq_iff_eq] at ha
+    obtain ⟨f, hf⟩ := exists_find_of_any ha.1
+    have := preserve_move hI hT hf (by simp [hst]) (Or.inl ha.2.symm)
+    simpa [applyRec, hst, hf] using this
+  | R =>
+    simp only [applicable, hst, Bool.and_eq_true, Bool.not_eq_true'] at ha
+    obtain ⟨f, hf⟩ := exists_find_of_any ha.1.1
+    have := preserve_move hI hT hf (by simp [hst]) (Or.inr ha.1.2)
+    simpa [applyRec, hst, hf] using this
+
+theorem run_preserves : ∀ (rs : List Rec) (cs : List Chg) (t : Tree), Inv cs t → TInv t → WF t rs →
+    Inv (rs.foldl step cs) (run t rs) ∧ TInv (run t rs)
+  | [], _, _, hI, hT, _ => ⟨hI, hT⟩
+  | r :: rs, cs, t, hI, hT, hW => by
+    have h := step_preserves hI hT hW.1
+    exact run_preserves rs (step cs r) (applyRec t r) h.1 h.2 hW.2
+
+theorem base_inv (paths : List String) (hN : paths.Nodup) : Inv [] (baseTree paths) ∧ TInv (baseTree paths) := by
+  constructor
+  · intro q
+    simp [liveAt, deadAt, baseTree, touched]
+  · constructor
+    · simp only [baseTree]
+      exact List.Pairwise.map _ (fun a b h => h) hN
+    · intro f hf _
+      simp only [baseTree, List.mem_map] at hf
+      obtain ⟨p, _, hp⟩ := hf
+      subst hp
+      simp [deadAt, baseTree]
+    · intro f hf; simp [baseTree] at hf
+    · intro f hf
+      simp only [baseTree, List.mem_map] at hf
+      obtain ⟨p, _, hp⟩ := hf
+      subst hp
+      simp
+
+theorem find_of_mem_unique {f : TFile} : ∀ {l : List TFile}, (l.Pairwise fun f g => f.path ≠ g.path) → f ∈ l →
+    l.find? (atPath f.path) = some f := by
+  intro l
+  induction l with
+  | nil => intro _ h; simp at h
+  | cons x xs ih =>
+    intro hU hm
+    rcases List.mem_cons.mp hm with h | h
+    · subst h; simp [List.find?_cons, atPath]
+    · have hne : x.path ≠ f.path := (List.pairwise_cons.mp hU).1 f h
+      simp [List.find?_cons, atPath, hne, ih (List.pairwise_cons.mp hU).2 h]
+
+/-- **C03, lineage**: for every well-formed history of name-status records over any base tree, and every file `f` of
+the resulting HEAD tree,
+* if the branch touched `f`: the changes pint holds for `f`'s path are the change that carries the base path `f`
+  descends from (through any chain of renames, deletions and re-creations) with every commit of that chain — it is the
+  most recent one and the only one that is not a deletion — followed by the deletions of earlier files at that path;
+* if the branch did not touch `f`: pint holds no change for its path at all (its rules stay `unmodified`) and its
+  base path is its own. -/
+theorem fold_tracks_lineage (paths : List String) (hN : paths.Nodup) (rs : List Rec) (hW : WF (baseTree paths) rs) :
+    ∀ f ∈ (run (baseTree paths) rs).live,
+      (touched f = true →
+        (fold rs).filter (hasAfter f.path) = toChg f :: (deadAt (run (baseTree paths) rs) f.path).map toChg ∧
+        (fold rs).find? (hasAfter f.path) = some (toChg f) ∧
+        (fold rs).filter (fun c => hasAfter f.path c && c.st != .D) = [toChg f]) ∧
+      (touched f = false → (fold rs).filter (hasAfter f.path) = [] ∧ f.origin = f.path) := by
+  have hb := base_inv paths hN
+  have h := run_preserves rs [] (baseTree paths) hb.1 hb.2 hW
+  intro f hf
+  have hfind := find_of_mem_unique h.2.uniq hf
+  have hI := h.1 f.path
+  rw [liveAt_of_find h.2.uniq hfind] at hI
+  constructor
+  · intro ht
+    simp only [ht, if_true, List.cons_append, List.nil_append, List.map_cons] at hI
+    have hI' : (fold rs).filter (hasAfter f.path) = toChg f :: (deadAt (run (baseTree paths) rs) f.path).map toChg := hI
+    refine ⟨hI', ?_, ?_⟩
+    · rw [find_eq_head_filter, hI']; rfl
+    · have hsplit : (fold rs).filter (fun c => hasAfter f.path c && c.st != .D) =
+          ((fold rs).filter (hasAfter f.path)).filter (fun c => c.st != .D) := by
+        rw [List.filter_filter]; congr 1; funext c; exact Bool.and_comm _ _
+      rw [hsplit, hI']
+      have hfD : (toChg f).st ≠ .D := h.2.liveND f hf
+      have hdead : ((deadAt (run (baseTree paths) rs) f.path).map toChg).filter (fun c => c.st != .D) = [] := by
+        apply List.filter_eq_nil_iff.mpr
+        intro c hc
+        obtain ⟨g, hg, hgc⟩ := List.mem_map.mp hc
+        have : g.st = .D := h.2.deadD g (List.mem_filter.mp hg).1
+        simp [← hgc, toChg, this]
+      simp [List.filter_cons, hfD, hdead]
+  · intro ht
+    have hfr := h.2.fresh f hf ht
+    simp only [ht, Bool.false_eq_true, if_false, List.nil_append, hfr.2, List.map_nil] at hI
+    exact ⟨hI, hfr.1⟩
+
+/-- deleted files: every deletion pint reports for a path is a file the branch deleted there, with its lineage -/
+theorem fold_deletions (paths : List String) (hN : paths.Nodup) (rs : List Rec) (hW : WF (baseTree paths) rs) (p : String)
+    (hfree : (run (baseTree paths) rs).live.any (atPath p) = false) :
+    (fold rs).filter (hasAfter p) = (deadAt (run (baseTree paths) rs) p).map toChg := by
+  have hb := base_inv paths hN
+  have h := run_preserves rs [] (baseTree paths) hb.1 hb.2 hW
+  have := h.1 p
+  rwa [liveAt_of_not_live hfree, List.nil_append] at this
+
+/-! the code before the fix: delete `b`, rename `a` to `b`, edit `b` -/
+def reuseHistory : List Rec :=
+  [ { commit := 1, st := .D, src := "b", dst := "b" },
+    { commit := 2, st := .R, src := "a", dst := "b" },
+    { commit := 3, st := .M, src := "b", dst := "b" } ]
+
+/-- the history is well formed, HEAD's `b` descends from `a` … -/
+example : wfB (baseTree ["a", "b"]) reuseHistory = true ∧
+    ((run (baseTree ["a", "b"]) reuseHistory).live.map fun f => (f.path, f.origin, f.commits)) = [("b", "a", [2, 3])] := by decide
+
+/-- … the repaired fold compares `b` with `a` (and still reports the deletion of the old `b`) … -/
+example : (fold reuseHistory).map (fun c => (c.before, c.after, c.commits)) = [("a", "b", [2, 3]), ("b", "b", [1])] := by decide
+
+/-- … while the fold before the fix compared HEAD's `b` with the deleted `b` and lost the rename. -/
+theorem old_fold_loses_lineage :
+    (foldOld reuseHistory).map (fun c => (c.before, c.after, c.commits)) = [("b", "b", [1, 3])] := by decide
+
+theorem wfB_iff (t : Tree) (rs : List Rec) : wfB t rs = true ↔ WF t rs := by
+  induction rs generalizing t with
+  | nil => simp [wfB, WF]
+  | cons r rs ih => simp [wfB, WF, ih]
+
+/-- The composition of the two theorems with the bodies pint reads (`Commits[0]^`, the last commit) and the merge into
+the glob entries is run, not proved: C03 is claimed at the level of these two theorems plus the correspondence. -/
+theorem C03_partial (paths : List String) (hN : paths.Nodup) (rs : List Rec) (hW : WF (baseTree paths) rs)
+    (before after : List Ent) (hB : UniqueKeys before) (hA : UniqueKeys after) (hNm : ∀ a ∈ after, a.name ≠ "") :
+    (∀ f ∈ (run (baseTree paths) rs).live,
+      (touched f = true → (fold rs).filter (fun c => hasAfter f.path c && c.st != .D) = [toChg f]) ∧
+      (touched f = false → (fold rs).filter (hasAfter f.path) = [])) ∧
+    (matchAfter before after).1.map stateOf = after.map (specState before) :=
+  ⟨fun f hf => ⟨fun ht => ((fold_tracks_lineage paths hN rs hW f hf).1 ht).2.2,
+                fun ht => ((fold_tracks_lineage paths hN rs hW f hf).2 ht).1⟩,
+   (match_states after before hB hA hNm).1⟩
+
 end Pint.Props.C03
